@@ -230,7 +230,15 @@ func RunGroup(specs []*Spec, seed uint64, o Options) []Result {
 		}
 		return res
 	}
-	defer inner.Close(ctx)
+	// The vault is closed only when every plan was released cleanly: closing it under an engine that is still running
+	// (a missed Wait deadline on a loaded machine, a leak) makes the engine's next write fail and log.Fatalf kills the
+	// process before the observation is reported. A tainted child is discarded anyway.
+	closeVault := true
+	defer func() {
+		if closeVault {
+			inner.Close(ctx)
+		}
+	}()
 	vault := LogVault{Vault: inner}
 	ws, err := coercion.New(ctx, set.Reg, vault)
 	if err != nil {
@@ -360,6 +368,9 @@ func RunGroup(specs []*Spec, seed uint64, o Options) []Result {
 			logMu.Unlock()
 		}
 		res[i] = r.finish()
+		if res[i].Taint {
+			closeVault = false
+		}
 	}
 	close(done)
 	return res
